@@ -88,6 +88,11 @@ def upper_bound(end, anc, ctxinfo):
     if e and ctxinfo.get("param_literals", {}).get(e["?p"]):
         ks = ctxinfo["param_literals"][e["?p"]]
         return max(ks), "parameter %s: call sites pass literals %s" % (e["?p"], sorted(set(ks)))
+    # parameter of a helper: every call site passes a value that has an upper-bound provenance where it is called
+    if e and ctxinfo.get("callsite_bound"):
+        r = ctxinfo["callsite_bound"](e["?p"])
+        if r is not None:
+            return r
     # dominating guard on the same value
     for (p, i) in reversed(anc):
         if p[0] == "if" and len(p) == 4:
@@ -523,6 +528,28 @@ def main(tier):
             if "::tokenizer::" in g.key:
                 t = T.alpha(T.normalise(t))      # rewrites keyed on the shortened names (next_if loops) apply now
             info = {"MC": MC, "param_literals": plits if g.key.endswith("function_static_arguments") else {}}
+            if "::parser::" not in g.key and "::tokenizer::" not in g.key and not is_eval:
+                def callsite_bound(pname, g=g, m=m, ev=ev, MC=MC):
+                    names = [nm for (_, nm, _) in T.param_ids(g)]
+                    if pname not in names:
+                        return None
+                    idx = names.index(pname)
+                    found = []
+                    for c in F.fns:
+                        if c.evaluator != ev or c.path not in reach or not c.thir or c.derived or c.kind == "Closure" or c is g:
+                            continue
+                        ce = m.tb.eval_fn() is not None and c.path == m.tb.eval_fn().path
+                        ct = m.tb.fn_term(c, inline_pure=True, eval_fn=(m.tb.eval_names() if ce else None))
+
+                        def v(node, anc):
+                            if node and node[0] == "call" and isinstance(node[1], str) and len(node) > 2 + idx and m.tb.resolve_local(node[1]) is g:
+                                found.append(upper_bound(node[2 + idx], anc, {"MC": MC}) + (c.short,))
+                        walk_ctx(ct, v)
+                    if not found or any(k is None for (k, _, _) in found):
+                        return None
+                    k, how, who = max(found)
+                    return k, "parameter %s: bounded at every call site (%s in %s)" % (pname, how, who)
+                info["callsite_bound"] = callsite_bound
             before = counts["loops"]
             classify_loops(run, g, t, info, kmax, counts)
             # cross-check with MIR: number of natural loops (the closures' loops are in their own bodies)
